@@ -4,7 +4,7 @@ from ..core import Suite
 
 STYLES = ["single", "sparse", "closing", "mixed", "unbuffered", "closing", "alone", "alone"]
 SUITES = [Suite("prio2-det", prio.prio_generate(0.0, STYLES), prio.prio_project("C06"), prio.monitor_prio("C06"),
-                rule=prio.PRIO_RULE, version="v2", impl_ints=False, batch_timeout=600)]
+                rule=prio.PRIO_RULE, version="v2", impl_ints=False, batch_timeout=600, shrink=prio.shrink_prio2)]
 SUITES.append(Suite("prio1-progress", prio.prio1_progress_generate(), prio.prio1_project("C02"), prio.monitor_prio1_progress,
                     rule=prio.PRIO1_RULE + "; plus the witness of the recorded known finding (v1, priorities {3,2,1}, Rate, H=1)",
                     version="v1", impl_ints=False, batch_timeout=300))
